@@ -784,6 +784,14 @@ func (ex *Explorer) resetPath(w workItem) {
 func (ex *Explorer) Run(name string, body func()) {
 	ex.harness = name
 	ex.work = []workItem{{nil, Model{}}}
+	if tr := os.Getenv("GOSYM_PREFIX"); tr != "" {
+		// debugging aid: explore only below one decision prefix
+		var p []bool
+		for _, c := range tr {
+			p = append(p, c == '1')
+		}
+		ex.work = []workItem{{p, nil}}
+	}
 	mark := len(trail)
 	for len(ex.work) > 0 {
 		if ex.Paths >= ex.maxPaths {
